@@ -108,7 +108,10 @@ def hazards(src, host, kind, start, end, rname, opts, starts):
     text = src[start:end]
     has_global = any(isinstance(n, ast.Global) for n in ast.walk(host))
     mentions_g = any(isinstance(n, ast.Name) and n.id == "G" for n in inside) or any(isinstance(n, ast.Global) for n in inside)
-    if has_global and mentions_g:
+    contains_decl = any(isinstance(n, ast.Global) for n in inside)
+    if has_global and (contains_decl or (rname == "variable" and opts.get("global_") and mentions_g)):
+        # what is left of a recorded finding after the repair of its main shape (a global passed as a parameter AND
+        # declared global): the region takes the declaration itself along, or a global_=True variable reads the global
         hz.add("extract_with_global_declaration")
     written_in_host = {n.id for n in ast.walk(host) if isinstance(n, ast.Name) and isinstance(n.ctx, ast.Store)}
     attr_written = any(isinstance(n, ast.Attribute) and isinstance(n.ctx, ast.Store) for n in ast.walk(host))
@@ -178,10 +181,12 @@ def hazards(src, host, kind, start, end, rname, opts, starts):
 
         walk_block(host.body, ())
         names_in = sorted((n for n in inside if isinstance(n, ast.Name) and id(n) in paths), key=lambda n: off(n))
+        aug_targets = {id(n.target) for n in ast.walk(host) if isinstance(n, ast.AugAssign) and isinstance(n.target, ast.Name)}
         for i_, st_n in enumerate(names_in):
             if isinstance(st_n.ctx, ast.Store) and paths[id(st_n)]:
                 for ld in names_in[i_ + 1:]:
-                    if ld.id == st_n.id and isinstance(ld.ctx, ast.Load) and paths[id(ld)][: len(paths[id(st_n)])] != paths[id(st_n)]:
+                    # (the target of an augmented assignment is read before it is written)
+                    if ld.id == st_n.id and (isinstance(ld.ctx, ast.Load) or id(ld) in aug_targets) and paths[id(ld)][: len(paths[id(st_n)])] != paths[id(st_n)]:
                         hz.add("read_after_conditional_write_in_region")
         # loop-carried: the region sits in a loop and writes a variable that the loop reads BEFORE the region (i.e. in
         # the next iteration).  rope does return such a variable when the region itself reads it before writing it
